@@ -337,4 +337,56 @@ Section Instances.
       rewrite C. reflexivity.
     - rewrite size_dbl. change (size one_item) with 2. change (Z.of_nat 200) with 200. lia.
   Qed.
+
+  (* ---- NAME.DUP NAME.CAT: names have no configured limit at all ---- *)
+  Definition dup_name (s : state) : state := match st_name s with x :: _ => set_name s (x :: st_name s) | [] => s end.
+  Definition cat_name (s : state) : state :=
+    match st_name s with b :: a :: r => set_name s ((a ++ [32] ++ b) :: r) | _ => s end.
+  Lemma dup_name_ok s : g_dup st_name set_name s = Ok (dup_name s).
+  Proof. unfold g_dup, dup_name. destruct (st_name s); reflexivity. Qed.
+  Lemma cat_name_ok s : name_cat s = Ok (cat_name s).
+  Proof. unfold name_cat, cat_name. destruct (st_name s) as [|b [|a r]]; reflexivity. Qed.
+  Lemma dup_name_exec s e : dup_name (set_exec s e) = set_exec (dup_name s) e.
+  Proof. ds s. unfold dup_name. cbn [st_name set_exec]. destruct xn; reflexivity. Qed.
+  Lemma cat_name_exec s e : cat_name (set_exec s e) = set_exec (cat_name s) e.
+  Proof. ds s. unfold cat_name. cbn [st_name set_exec]. destruct xn as [|b [|a r]]; reflexivity. Qed.
+
+  Fixpoint dbl_name (k : nat) (x : str) : str := match k with O => x | S k' => dbl_name k' (x ++ [32] ++ x) end.
+  Lemma len_dbl_name k : forall x, zlen (dbl_name k x) = 2 ^ Z.of_nat k * (zlen x + 1) - 1.
+  Proof.
+    induction k as [|k IH]; intro x; cbn [dbl_name]; [change (2 ^ Z.of_nat 0) with 1; lia|].
+    rewrite IH. rewrite Nat2Z.inj_succ, Z.pow_succ_r by lia.
+    rewrite !zlen_app', zlen_cons', zlen_nil'. lia.
+  Qed.
+  Lemma rounds_name k : forall s x r, st_name s = x :: r ->
+    st_name (rounds dup_name cat_name k s) = dbl_name k x :: r.
+  Proof.
+    induction k as [|k IH]; intros s x r E; cbn [rounds dbl_name]; [exact E|].
+    apply IH. ds s. cbn [st_name] in E. subst xn. reflexivity.
+  Qed.
+
+  (* `( A EXEC.Y ( NAME.DUP NAME.CAT ) )` with A unbound *)
+  Definition nc_body : item := body "NAME.DUP"%string "NAME.CAT"%string.
+  Definition name_prog : list item := [IName [65]; i_instr "EXEC.Y"; nc_body].
+  Definition name_state : state := set_exec empty_state name_prog.
+  Definition after_name : state := set_name name_state [ [65] ].
+  Notation nst := (st "NAME.DUP"%string "NAME.CAT"%string).
+
+  Lemma name_first_step : step p full_registry w name_state = Ok (false, w, nst (4%nat, after_name)).
+  Proof. reflexivity. Qed.
+
+  (* after 1 + 5k steps the top NAME has 2^(k+1) - 1 characters *)
+  Theorem name_doubling k : exists s',
+    steps p full_registry (S (5 * k)) w name_state = Ok (false, w, s') /\
+    st_name s' = [ dbl_name k [65] ] /\ zlen (dbl_name k [65]) = 2 ^ (Z.of_nat k + 1) - 1.
+  Proof.
+    eexists. split; [|split].
+    - cbn [steps]. rewrite name_first_step. cbn [rbind].
+      rewrite (steps_cycle p w _ _ _ _ dup_name cat_name lookup_name_dup lookup_name_cat lookup_exec_y
+                 dup_name_ok cat_name_ok dup_name_exec cat_name_exec).
+      rewrite iter_rounds. reflexivity.
+    - unfold st. cbn [fst snd]. rewrite <- (rounds_name k after_name [65] [] eq_refl).
+      generalize (rounds dup_name cat_name k after_name). intro s. ds s. reflexivity.
+    - rewrite len_dbl_name. rewrite Z.pow_add_r by lia. change (zlen [65]) with 1. lia.
+  Qed.
 End Instances.
